@@ -186,8 +186,16 @@ def ref_slope(name, params, x):
     raise ValueError(name)
 
 
+LINEAR_IN_PARAMS = POLY_MODELS + ("userquad", "u_linear", "u_quadratic", "u_polynomial", "u_model4", "u_model5")
+
+
 def ref_grad(name, params, x, rel=1e-6):
-    """gradient of the reference model with respect to the parameters (central differences, Richardson)"""
+    """gradient of the reference model with respect to the parameters.  Models that are linear in their parameters: the
+    k-th basis function, exactly (no step, so a fitted parameter that happens to be ~0 next to values of 1e9 is no
+    problem); the others: central differences with Richardson extrapolation, step relative to the parameter"""
+    if name in LINEAR_IN_PARAMS:
+        n = len(params)
+        return [ref_model(name, [1.0 if j == k else 0.0 for j in range(n)], x) for k in range(n)]
     g = []
     for k in range(len(params)):
         h = rel * (abs(params[k]) or 1.0)
